@@ -10,6 +10,9 @@ Decoding of the operation lines shared by the C16 and C20 harnesses into the scr
     print <hex file> <line> <hex text>         (actions belong to the latest test)
     fail  <hex file> <line> <hex message>
     failx <hex file> <line> <hex message>
+    failmsg <hex message>                      (TestFailure without a location)
+    failloc <hex file> <line>                  (TestFailure without a message)
+    postfail <hex message>                     (added by a plugin's post-test action)
     checks <n>
     tick <ms>
     run
@@ -53,6 +56,12 @@ def applyOp (r : Reg) (w : List String) : Option Reg :=
     match Proto.unhex? f, l.toNat?, Proto.unhex? x with
     | some f, some l, some x => some (addAct r (.failExit f l x))
     | _, _, _ => none
+  | ["failmsg", x] => (Proto.unhex? x).map fun x => addAct r (.failMsg x)
+  | ["failloc", f, l] =>
+    match Proto.unhex? f, l.toNat? with
+    | some f, some l => some (addAct r (.failLoc f l))
+    | _, _ => none
+  | ["postfail", x] => (Proto.unhex? x).map fun x => addAct r (.postFail x)
   | ["checks", n] => n.toNat?.map fun n => addAct r (.checks n)
   | ["tick", n] => n.toNat?.map fun n => addAct r (.tick n)
   | _ => none
